@@ -43,6 +43,10 @@ func c18Cases() []c18Case {
 		{"create-assoc", func(db *gorm.DB) {
 			db.Create(&Owner{Name: "o", Company: &Company{Name: "c"}, Profile: Profile{Bio: "b"}, Pets: []Pet{{Name: "p"}}})
 		}},
+		{"create-many2many", func(db *gorm.DB) {
+			db.Create(&Speaker{Name: "s", Langs: []Lang{{Name: "go"}}})
+			db.Select("Langs").Delete(&Speaker{ID: 3})
+		}},
 		{"create-batches", func(db *gorm.DB) { db.CreateInBatches(&[]Item{{Name: "a"}, {Name: "b"}, {Name: "c"}}, 2) }},
 		{"save-upsert", func(db *gorm.DB) { db.Save(&Item{ID: 3, Name: "a"}) }},
 		{"update-hooks", func(db *gorm.DB) { db.Model(&HRec{ID: 3, Name: "r"}).Updates(map[string]interface{}{"val": 2}) }},
@@ -78,6 +82,20 @@ func c18Cases() []c18Case {
 				return tx.Transaction(func(tx2 *gorm.DB) error {
 					return tx2.Model(&Item{ID: 1}).Update("name", "b").Error
 				})
+			})
+		}},
+		{"transaction-nested-fails", func(db *gorm.DB) {
+			db.Transaction(func(tx *gorm.DB) error {
+				tx.Create(&Item{Name: "a"})
+				tx.Transaction(func(tx2 *gorm.DB) error {
+					tx2.Model(&Item{ID: 1}).Update("name", "b")
+					return errBlock
+				})
+				func() {
+					defer func() { recover() }()
+					tx.Transaction(func(tx3 *gorm.DB) error { panic("boom") })
+				}()
+				return nil
 			})
 		}},
 		{"begin-commit", func(db *gorm.DB) {
